@@ -53,10 +53,18 @@ theorem hcons_of_consistent (lon lat hops : List V) (h : hopsConsistent lon lat 
   intro j hj
   by_cases hlt : j < hops.length
   · unfold hopsConsistent at h
+    rw [Bool.and_eq_true] at h
+    replace h := h.1
     rw [List.all_eq_true] at h
     have := h j (List.mem_range.2 hlt)
     rcases hj with h1 | h1 | h1 | h1 <;> simp [h1] at this <;> exact this
   · unfold getV
     simp [List.getD, List.getElem?_eq_none (Nat.le_of_not_lt hlt)]
+
+theorem hopsExact_of_consistent (lon lat hops : List V) (h : hopsConsistent lon lat hops = true) :
+    hopsExact lon lat hops = true := by
+  unfold hopsConsistent at h
+  rw [Bool.and_eq_true] at h
+  exact h.2
 
 end IoosQc
